@@ -564,7 +564,7 @@ impl Observer for RedeliveryObserver {
         // was superseded before its echo arrived is answered "commit" without any effect)
         let took_effect = match rec.first_outcome {
             Outcome::App(_) | Outcome::PendingProposal | Outcome::AutoCommit => true,
-            _ => cl.applied.iter().any(|(a, _, _)| *a == idx),
+            _ => cl.applied.iter().any(|(a, seq, _)| *a == idx && *seq < w.delivery_seq),
         };
         if !took_effect {
             return Ok(());
